@@ -96,7 +96,9 @@ def known_class(case, root):
             steps = [s for s in p['steps'] if s != '.']
             if not p['desc'] or not steps: continue
             first = steps[0]
-            if first != '*' and first[1] == ic.on: return DESC_CTX          # './/g/k' declared on g: the scope element itself is taken for the first step
+            scope_ns = tns if ic.on == 'r' else case.get('lns', tns)
+            if first == '*' or first[1] == ic.on or (first[1] == '*' and first[0] in (scope_ns, '*', None)):
+                return DESC_CTX          # './/g/k', './/*', './/p:*' declared on g: the scope element itself is taken for the first step
             if len(steps) >= 2 and first != '*':
                 # an element matching the first step nested inside another one: the inner match is lost
                 def nested(n, inside):
